@@ -85,9 +85,17 @@ func (c *Case) c15Exec(src string, d *xdoc.Doc, ctx *xdoc.Node) {
 	}
 }
 
+func exoticDoc(g *xgen.G) *xdoc.Doc {
+	o := xgen.DefaultTree()
+	o.MaxDepth, o.MaxFan = 3, 4
+	o.TextVals = append(append([]string(nil), xgen.ExoticTextVals...), "é", "中文", "a\u00a0", "x\v", "\f")
+	o.AttrVals = append(append([]string(nil), xgen.ExoticAttrVals...), "é", "[", "(", "a\u3000")
+	return g.Tree(o)
+}
+
 func c15Tok(c *Case) {
 	g := c.G()
-	d := valueDoc(c.GShared("doc", int64(c.Index/32)))
+	d := exoticDoc(c.GShared("doc", int64(c.Index/32)))
 	ctx := d.Nodes[g.Intn(len(d.Nodes))]
 	src := g.TokExpr(1+g.Intn(3), true)
 	c.c15Exec(src, d, ctx)
@@ -97,9 +105,9 @@ func c15Tok(c *Case) {
 // c15Typed: every function applied to every kind of argument, systematically (function x argument-kind grid).
 func c15Typed(c *Case) {
 	g := c.G()
-	d := valueDoc(c.GShared("doc", int64(c.Index/32)))
+	d := exoticDoc(c.GShared("doc", int64(c.Index/32)))
 	ctx := d.Nodes[g.Intn(len(d.Nodes))]
-	args := []string{"'é'", "'aé中'", "'abc'", "1", "'a'", "''", "true()", "a", "//b", "@id", "/", ".", "1 div 0", "0 div 0", "'[a'", "-1", "text()", "$v", "(a | b)", "a = b", "count(a)", "'$1'", "2.5", "string()", "position()", "last()", "..", "//@*", "reverse(a)", "1 = 1", "'1'"}
+	args := []string{"'a\u00a0'", "' x\u3000'", "'b\v'", "'é'", "'aé中'", "'abc'", "0.5", "0.25", "1", "'a'", "''", "true()", "a", "//b", "@id", "/", ".", "1 div 0", "0 div 0", "'[a'", "-1", "text()", "$v", "(a | b)", "a = b", "count(a)", "'$1'", "2.5", "string()", "position()", "last()", "..", "//@*", "reverse(a)", "1 = 1", "'1'"}
 	fns := xgen.AllFuncs
 	fn := fns[(c.Index/7)%len(fns)]
 	if fn == "round" {
@@ -184,7 +192,13 @@ func c17Damage(c *Case) {
 		}
 		return true
 	}
-	join := func(ts []xref.Tok) string { return xref.Join(ts, "std", nil) }
+	wide := c.Index%2 == 1 // every other expression is damaged in its whitespace-rich spelling ("bogus :: b", "f ( )")
+	join := func(ts []xref.Tok) string {
+		if wide {
+			return xref.Join(ts, "wide", c.G(7).R)
+		}
+		return xref.Join(ts, "std", nil)
+	}
 	for i, t := range toks {
 		switch {
 		case t.Op:
